@@ -159,10 +159,10 @@ pub fn parameter_has_annotation(lines: &[&str], line: usize, end_char: usize) ->
         return false;
     };
 
-    // Get the text after the parameter name
-    let after_param = if end_char < line_text.len() {
-        &line_text[end_char..]
-    } else {
+    // Get the text after the parameter name. `end_char` is a recorded offset that may be
+    // stale relative to the current text, so it can lie past the end of the line or inside a
+    // multi-byte character: `get` rejects both instead of panicking.
+    let Some(after_param) = line_text.get(end_char..) else {
         return false;
     };
 
